@@ -882,16 +882,25 @@ func (x *Xlat) compositeLit(st *State, fr *Frame, out *Outcomes, e *ast.Composit
 		key := elemsKey(es)
 		h := x.get(st, key, elemsSort(es))
 		inner := Sel(h, a)
+		var vals []*Term
 		for i, el := range e.Elts {
 			if kv, ok := el.(*ast.KeyValueExpr); ok {
 				el = kv.Value
 			}
 			v := x.coerce(x.evalElt(st, fr, out, el, u.Elem()), u.Elem())
+			if len(v.Args) > 0 {
+				v = x.ctx.Define("elt", v)
+			}
+			vals = append(vals, v)
 			inner = Sto(inner, IntLit(int64(i)), v)
 		}
 		h = x.get(st, key, elemsSort(es)) // element evaluation may have changed it
-		x.set(st, key, Sto(h, a, inner))
-		return MkSlice(a, IntLit(0), IntLit(n), IntLit(n))
+		h2 := x.setElems(st, key, es, h, Sto(h, a, inner), touchedArr(a))
+		res := MkSlice(a, IntLit(0), IntLit(n), IntLit(n))
+		for i, v := range vals {
+			st.assume(Eq(x.atTerm(h2, res, IntLit(int64(i)), es), v))
+		}
+		return res
 	case *types.Map:
 		m := x.allocRef(st, "map")
 		x.initMap(st, m, u)
